@@ -18,11 +18,16 @@ for pid in ids:
     for b in m.get("bins", []):
         if b not in bins:
             bins.append(b)
-rc, out, dt = core.coq_make(targets, timeout=5400)
-print(out[-3000:])
-print("coq build of %s: rc=%d in %.0fs" % (targets, rc, dt))
+rc, out, dt = core.coq_make(None, timeout=5400)          # the whole development (models, lemmas, property theories)
+print(out[-2000:])
+print("coq build of everything: rc=%d in %.0fs" % (rc, dt))
 if rc != 0:
-    sys.exit(1)
+    # fall back to the registered checks' own theories so that one broken file cannot block all checks
+    rc, out, dt = core.coq_make(["-k"] + targets, timeout=5400)
+    print(out[-3000:])
+    print("coq build of %s: rc=%d in %.0fs" % (targets, rc, dt))
+    if rc != 0:
+        sys.exit(1)
 dt = core.build_harness(bins=bins or ["ping"], timeout=5400)
 print("harness build (%s) in %.0fs" % (bins, dt))
 PY
